@@ -38,15 +38,16 @@ def item(x, i):
     return Q.seq_get(x, i) if isinstance(x, V.Sym) or isinstance(i, V.Sym) else x[i]
 
 
-def fresh_sender(st, hint):
+def fresh_sender(st, hint, handler=None):
     """A sender object in one of three shapes: no signal attribute yet; an attribute with both names
     connected before; an attribute where only "other" was ever connected."""
+    handler = handler or HANDLER
     k = st.fork(3)
     o = SObj(Sender, {})
     if k == 1:
-        o.fields["_urwid_signals"] = DRef({n: LRef(ListOf(HANDLER).fresh_seq(st, f"{hint}.{n}")) for n in NAMES})
+        o.fields["_urwid_signals"] = DRef({n: LRef(ListOf(handler).fresh_seq(st, f"{hint}.{n}")) for n in NAMES})
     elif k == 2:
-        o.fields["_urwid_signals"] = DRef({"other": LRef(ListOf(HANDLER).fresh_seq(st, f"{hint}.other"))})
+        o.fields["_urwid_signals"] = DRef({"other": LRef(ListOf(handler).fresh_seq(st, f"{hint}.other"))})
     return o
 
 
@@ -117,7 +118,7 @@ class call_callback:
                 Q.seq_len(v.args_to_pass) == v.i_,
                 forall(0, v.i_, lambda j: both(
                     neg(mk_bool(PROTOCOLS["WeakRef"].deref(cur(), Q.seq_get(v.weak_args, j), entry=True).isnone)),
-                    eq(Q.seq_get(v.args_to_pass, j), PROTOCOLS["WeakRef"].deref(cur(), Q.seq_get(v.weak_args, j), entry=True).val))),
+                    _is_value(Q.seq_get(v.args_to_pass, j), PROTOCOLS["WeakRef"].deref(cur(), Q.seq_get(v.weak_args, j), entry=True).val))),
                 len(cur().ghost.get("cb_log", [])) == 0,
             ),
             shapes={"args_to_pass": ListOf(Opaque("Arg"))},
@@ -137,6 +138,17 @@ class call_callback:
             l.seq = ListOf(HANDLER).fresh_seq(st, "reentered")
 
 
+def _is_value(x, y):
+    """x is the (non-None) value y; x may be held as an optional (no fork: usable under a quantifier)."""
+    if isinstance(x, V.SOpt):
+        return both(neg(mk_bool(x.isnone)), eq(x.val, y))
+    return eq(x, y)
+
+
+def _arg_truth(st, v):
+    return mk_bool(z3.Function("Arg.truthy", v.e.sort(), z3.BoolSort())(v.e))
+
+
 class WeakRefProtocol(Protocol):
     """weakref.ref objects: calling one returns the referent or None; a referent may die at any moment
     (each dereference is a function of the reference and a global 'time' that advances at every opaque step)."""
@@ -148,7 +160,9 @@ class WeakRefProtocol(Protocol):
         t = 0 if entry else st.ghost.get("time", 0)
         f_dead = z3.Function("WeakRef.dead", ref.e.sort(), z3.IntSort(), z3.BoolSort())
         f_val = z3.Function("WeakRef.referent", ref.e.sort(), S.opaque_sort("Arg"))
-        return V.SOpt(f_dead(ref.e, z3.IntVal(t)), V.SOpaque("Arg", f_val(ref.e)))
+        # a live referent is an arbitrary object: its truth value (`__bool__` / `__len__`) is unknown -- an empty
+        # list walker is as alive as a non-empty one, so code that tests `not real_arg` instead of `is None` forks here
+        return V.SOpt(f_dead(ref.e, z3.IntVal(t)), V.SOpaque("Arg", f_val(ref.e), {"truth": _arg_truth}))
 
 
 PROTOCOLS["WeakRef"] = WeakRefProtocol()
@@ -249,8 +263,16 @@ def iterating_snapshot(v, H):
     return both(length(cur_seq) == n, forall(0, n, lambda j: handler_eq(item(cur_seq, j), item(H, j))))
 
 
+def _same(x, y):
+    """Same stored value: opaque individuals by identity; sequences held by value by length and elements."""
+    if isinstance(x, (Q.SSeq, tuple)) or isinstance(y, (Q.SSeq, tuple)):
+        n = length(x)
+        return both(length(y) == n, forall(0, n, lambda j: eq(item(x, j), item(y, j))))
+    return eq(x, y)
+
+
 def handler_eq(x, y):
-    return both(eq(x[0], y[0]), eq(x[1], y[1]), opt_same(x[2], y[2]), eq(x[3][0], y[3][0]), eq(x[3][1], y[3][1]))
+    return both(eq(x[0], y[0]), eq(x[1], y[1]), opt_same(x[2], y[2]), _same(x[3][0], y[3][0]), _same(x[3][1], y[3][1]))
 
 
 # ---- connect / disconnect_by_key
@@ -353,22 +375,61 @@ class disconnect_by_key:
     params = dict(obj=SENDER, name=Atom("sig", "other"), key=Opaque("SigKey"))
     setup = staticmethod(_connect_setup)
 
+    log_event = "disconnect_by_key"
+
     def ensures(old, s, a, result):
         st = cur()
         H0 = handlers_of(st.ghost["obj_at_entry"], a.name)
         H1 = handlers_of(a.obj, a.name)
-        n, m = length(H0), length(H1)
-        yield "only-removes", m <= n
-        yield "no-entry-with-that-key-remains", forall(0, m, lambda j: neg(eq(item(H1, j)[0], a.key)))
         f = getattr(H1, "filter_of", None)
         if f is not None:
-            base, zi, zp, _pred = f
-            yield "survivors-are-old-entries-in-order", both(
-                forall(0, m, lambda j: both(zi(j) >= 0, zi(j) < n, handler_eq(item(H1, j), item(H0, zi(j))))),
-                forall(0, m - 1, lambda j: zi(j) < zi(j + 1)))
-            yield "every-other-entry-survives", forall(0, n, lambda i: implies(neg(eq(item(H0, i)[0], a.key)), both(zp(i) >= 0, zp(i) < m, handler_eq(item(H1, zp(i)), item(H0, i)))))
+            yield from removal_claims(H0, H1, a.key, f[1], f[2])
         else:
-            yield "nothing-connected-nothing-changed", both(n == 0, m == 0)
+            yield "nothing-connected-nothing-changed", both(length(H0) == 0, length(H1) == 0)
         for other in NAMES:
             if not bool(a.name == other):
                 yield f"other-signal-{other}-untouched", same_seq(handlers_of(st.ghost["obj_at_entry"], other), handlers_of(a.obj, other))
+
+    # -- use at a call site (Signals.disconnect): the handler list of (obj, name), if there is one, is replaced by a
+    # sequence F about which exactly the clauses proved above are known.  F's elements are *defined* as
+    # F[j] = H0[zi(j)] (a sequence is determined by its length and elements, and "survivors-are-old-entries"
+    # says each F[j] has the components of H0[zi(j)]); zi / zp are fresh witnesses of the proved existence claim.
+    def ensures_callee(old, s, a, result):
+        return ()
+
+    def effects(old, s, a, result):
+        st = cur()
+        d = a.obj.fields.get("_urwid_signals") if isinstance(a.obj, SObj) else None
+        ref = None
+        if d is not None:
+            for nm, l in d.d.items():
+                if bool(a.name == nm):
+                    ref = l
+        if ref is None or (isinstance(ref.seq, tuple) and not ref.seq):
+            return  # nothing connected under that name: the code filters a fresh empty list
+        H0 = ref.seq
+        n = length(H0)
+        m = st.fresh_int("dbk_len")
+        zi_f = z3.Function(st.fresh_name("dbk_idx"), z3.IntSort(), z3.IntSort())
+        zp_f = z3.Function(st.fresh_name("dbk_pos"), z3.IntSort(), z3.IntSort())
+        zi = lambda t: V.mk_int(zi_f(V._z(t)))  # noqa: E731
+        zp = lambda t: V.mk_int(zp_f(V._z(t)))  # noqa: E731
+        base = Q.to_sseq(H0)
+        F = Q.SSeq(m, lambda j: base.get(zi(j)), base.shape, None, "dbk")
+        F.filter_of = (base, zi, zp, None)
+        st.assume(m >= 0)
+        for _label, fml in removal_claims(H0, F, a.key, zi, zp):
+            st.assume(fml)
+        ref.seq = F
+
+
+def removal_claims(H0, H1, key, zi, zp):
+    """H1 = H0 without the entries carrying `key`: a subsequence (index map zi, strictly increasing) that keeps
+    every other entry (position map zp)."""
+    n, m = length(H0), length(H1)
+    yield "only-removes", m <= n
+    yield "no-entry-with-that-key-remains", forall(0, m, lambda j: neg(eq(item(H1, j)[0], key)))
+    yield "survivors-are-old-entries-in-order", both(
+        forall(0, m, lambda j: both(zi(j) >= 0, zi(j) < n, handler_eq(item(H1, j), item(H0, zi(j))))),
+        forall(0, m - 1, lambda j: zi(j) < zi(j + 1)))
+    yield "every-other-entry-survives", forall(0, n, lambda i: implies(neg(eq(item(H0, i)[0], key)), both(zp(i) >= 0, zp(i) < m, handler_eq(item(H1, zp(i)), item(H0, i)))))
